@@ -264,23 +264,30 @@ deriving DecidableEq, Repr, Inhabited
 
 abbrev FullPad := (Int × Int) × (Int × Int) × (Int × Int)
 
-/-- `_prepare_pad_width`: the four accepted forms → `[[before, after]] * 3`, negative values refused -/
+/-- `_prepare_pad_width`: the four accepted forms → `[[before, after]] * 3` -/
+def rawPadWidth (w : PadWidth) : Except ErrKind FullPad :=
+  match w with
+  | .int k => if k < 0 then .error .value else .ok ((k, k), (k, k), (k, k))
+  | .flat ws =>
+    match ws with
+    | [] => .error .index
+    | [b, a] => if b < 0 ∨ a < 0 then .error .value else .ok ((b, a), (b, a), (b, a))
+    | _ => .error .value
+  | .nested ws =>
+    match ws with
+    | [] => .error .index
+    | [[a], [b], [c]] => .ok ((a, a), (b, b), (c, c))
+    | [[a0, a1], [b0, b1], [c0, c1]] => .ok ((a0, a1), (b0, b1), (c0, c1))
+    | _ => .error .value
+
+def fullNeg (full : FullPad) : Bool :=
+  decide (full.1.1 < 0) || decide (full.1.2 < 0) || decide (full.2.1.1 < 0) || decide (full.2.1.2 < 0) ||
+  decide (full.2.2.1 < 0) || decide (full.2.2.2 < 0)
+
+/-- `_prepare_pad_width`: negative values are refused in every form -/
 def fullPadWidth (w : PadWidth) : Except ErrKind FullPad := do
-  let full : FullPad ← match w with
-    | .int k => if k < 0 then .error .value else pure ((k, k), (k, k), (k, k))
-    | .flat ws =>
-      match ws with
-      | [] => .error .index
-      | [b, a] => if b < 0 ∨ a < 0 then .error .value else pure ((b, a), (b, a), (b, a))
-      | _ => .error .value
-    | .nested ws =>
-      match ws with
-      | [] => .error .index
-      | [[a], [b], [c]] => pure ((a, a), (b, b), (c, c))
-      | [[a0, a1], [b0, b1], [c0, c1]] => pure ((a0, a1), (b0, b1), (c0, c1))
-      | _ => .error .value
-  let ((b0, a0), (b1, a1), (b2, a2)) := full
-  if b0 < 0 ∨ a0 < 0 ∨ b1 < 0 ∨ a1 < 0 ∨ b2 < 0 ∨ a2 < 0 then .error .value else pure full
+  let full ← rawPadWidth w
+  if fullNeg full then .error .value else pure full
 
 def padAxis (n before after : Int) : AxMap := ⟨-before, 1, n + before + after, n + before + after⟩
 
@@ -429,11 +436,15 @@ def orientPlan (cur des : Orient) : Except ErrKind (List Int × List Int) := do
 inductive Coord | patient | slide
 deriving DecidableEq, Repr, Inhabited
 
+/-- `if len(flip_axes) > 0: result = self.flip_spatial(flip_axes) else: result = self` -/
+def flipIfAny (sz : AxMap → Int) (g : Geom) (flips : List Int) : Except ErrKind GStep :=
+  if flips.isEmpty then .ok (g, id) else flipG sz g flips
+
 def toOrientationG (sz : AxMap → Int) (coord : Coord) (g : Geom) (o : List Char) : Except ErrKind GStep := do
   if coord ≠ .patient then throw ErrKind.runtime
   let des ← normOrient o
   let (perm, flips) ← orientPlan (closest g) des
-  let (g1, f1) ← if flips.isEmpty then pure (g, id) else flipG sz g flips
+  let (g1, f1) ← flipIfAny sz g flips
   let (g2, f2) ← permuteG g1 perm
   pure (g2, fun j => f1 (f2 j))
 
@@ -501,6 +512,13 @@ def SOp.applyG (sz : AxMap → Int) (coord : Coord) (g : Geom) : SOp → Except 
   | .toOrientation o => toOrientationG sz coord g o
   | .ensureHandedness h fa sa => ensureHandednessG sz g h fa sa
   | .copy => .ok (g, id)
+
+/-- the operations that can only select voxels (everything except the three padding operations) -/
+def SOp.cropping : SOp → Bool
+  | .pad _ _ => false
+  | .padTo _ _ => false
+  | .padOrCropTo _ _ => false
+  | _ => true
 
 /-- the `VolumeGeometry` method -/
 def SOp.applyGeom (coord : Coord) (g : Geom) (op : SOp) : Except ErrKind GStep := op.applyG AxMap.size coord g
@@ -738,6 +756,10 @@ inductive Op
   | getChannel (sel : List (Nat × Nat)) (keepdims : Bool)
   | permuteChannels (p : List Int)
   | withArray (shape : List Int) (a : I3 → List Nat → Rat) (isInt : Bool)
+
+def Op.isSpatial : Op → Bool
+  | .spatial _ => true
+  | _ => false
 
 def Op.apply (coord : Coord) (v : Vol) : Op → Except ErrKind VStep
   | .spatial op => op.applyVol coord v
